@@ -33,6 +33,14 @@ def chronWrite (cfg : Cfg) (codec : Codec) (crc : Checksum) (bs : Nat) (st : St)
 def chronReports (cfg : Cfg) (t : Treasure) : Bool :=
   cfg.chronSurfacesError && !accepts cfg (entryOf t)
 
+/-- does the API client learn it?  Either `Write` reports the refusal (and the layers above pass it
+    on), or the gateway refused the key before a treasure existed. -/
+def apiReports (cfg : Cfg) (t : Treasure) : Bool :=
+  (cfg.chronSurfacesError || cfg.apiValidatesKeys) && !accepts cfg (entryOf t)
+
+/-- does the gateway accept a swamp name? (its three-part shape is not modelled here) -/
+def apiAcceptsName (cfg : Cfg) (name : Bytes) : Bool := !(cfg.apiBoundsNameLength && 65535 < name.length)
+
 /-- `chroniclerV2.Write` is a history of the writer: every theorem about `runOps` applies to it -/
 theorem chronWrite_eq_runOps (cfg : Cfg) (codec : Codec) (crc : Checksum) (bs : Nat) (st : St) (batch : List Treasure)
     (h : st.sess.isSome = true) :
